@@ -121,6 +121,9 @@ Proof.
   rewrite lines_acc_app by exact H. reflexivity.
 Qed.
 
+Lemma split_lines_spec l s : find_lf l = None -> split_lines ((l ++ [10]) ++ s) = (l ++ [10]) :: split_lines s.
+Proof. intros H. apply split_lines_app. exists l. split; [reflexivity | exact H]. Qed.
+
 Lemma split_lines_concat ps s : Forall wf_line ps -> split_lines (concat ps ++ s) = ps ++ split_lines s.
 Proof.
   induction 1 as [|p ps Hp _ IH]; [reflexivity|].
